@@ -223,9 +223,42 @@ func runC14(p *core.Prog, r *core.Report) {
 				// value: address of a cell holding recover()'s result, or the result itself
 				v := args[1]
 				isRec := false
-				check := func(x ssa.Value) {
+				var check func(x ssa.Value)
+				check = func(x ssa.Value) {
 					if cc, ok := x.(*ssa.Call); ok && isBuiltin(cc, "recover") {
 						isRec = true
+					}
+					// a private "record the panic" helper: its parameter is the recovered value when every caller passes one
+					if prm, ok := x.(*ssa.Parameter); ok && prm.Parent() != nil {
+						idx := -1
+						for i, q := range prm.Parent().Params {
+							if q == prm {
+								idx = i
+							}
+						}
+						cs := staticCalls(p).callers[rootFn(prm.Parent())]
+						all := len(cs) > 0 && idx >= 0
+						for _, site := range cs {
+							args := sx.Args(site.Instr)
+							if idx >= len(args) {
+								all = false
+								continue
+							}
+							saved := isRec
+							isRec = false
+							a := sx.Unspill(args[idx])
+							if mi, ok := a.(*ssa.MakeInterface); ok {
+								a = sx.Unspill(mi.X)
+							}
+							check(a)
+							if !isRec {
+								all = false
+							}
+							isRec = saved
+						}
+						if all {
+							isRec = true
+						}
 					}
 				}
 				check(sx.Unspill(v))
@@ -495,6 +528,37 @@ func runC14(p *core.Prog, r *core.Report) {
 				}
 			}
 			r.Check(okAll, "C14-R3", "Status reports buffered lengths plus the held-task counter on every path", p.FuncPos(t.Status), "the pending value is, on every path, a sum that includes the counter load", whyP)
+			// Status only observes: it loads and takes lengths, it never swaps, stores or adds — a second snapshot must
+			// see what the first one saw when nothing happened in between
+			{
+				var wr []string
+				sv := p.Inl(t.Status)
+				for _, f := range sx.WithClosures(sv) {
+					sx.Instrs(f, func(in ssa.Instruction) {
+						switch x := in.(type) {
+						case ssa.CallInstruction:
+							n := sx.CalleeName(x)
+							if strings.HasPrefix(n, "(*sync/atomic.") && !strings.HasSuffix(n, ".Load") {
+								wr = append(wr, short(n)+" at "+p.Pos(in.Pos()))
+							}
+							if strings.HasPrefix(n, "sync/atomic.") && !strings.HasPrefix(n, "sync/atomic.Load") {
+								wr = append(wr, short(n)+" at "+p.Pos(in.Pos()))
+							}
+						case *ssa.Store:
+							if fa, ok := x.Addr.(*ssa.FieldAddr); ok && !sx.IsFreshObject(fa.X) && sx.OwnerName(fa.X.Type()) == t.Named.Obj().Name() {
+								wr = append(wr, "store to "+sx.AddrPath(x.Addr)+" at "+p.Pos(in.Pos()))
+							}
+						case *ssa.Send:
+							wr = append(wr, "channel send at "+p.Pos(in.Pos()))
+						case *ssa.UnOp:
+							if x.Op == token.ARROW {
+								wr = append(wr, "channel receive at "+p.Pos(in.Pos()))
+							}
+						}
+					})
+				}
+				r.Check(len(wr) == 0, "C14-R3", "Status is a pure observer", p.FuncPos(t.Status), "atomic loads and len() only", "Status changes what it reports on: "+strings.Join(wr, "; ")+" — the next snapshot differs although no task ran, panicked or was pushed in between (e.g. LastPanic read with Swap(nil) is lost for every later Status)")
+			}
 			// the bound laneSize×(queueSize+1) speaks of the queueSize the caller passed: the buffers have exactly that capacity
 			{
 				var bad []string
